@@ -3,7 +3,7 @@
 use crate::builder::RegExpBuilder;
 use crate::grapheme::Grapheme;
 use std::cell::RefCell;
-use std::collections::{HashMap, HashSet};
+use std::collections::HashMap;
 
 #[derive(Clone, Debug, PartialEq, Eq, Hash)]
 pub struct GSnap {
@@ -86,18 +86,6 @@ fn choose(arity: usize) -> Option<usize> {
         ch.taken.push((pick, arity));
         Some(pick)
     })
-}
-
-pub(crate) fn choose_state<T: Copy + Ord + std::hash::Hash + Eq>(set: &HashSet<T>) -> T {
-    let mut members: Vec<T> = set.iter().copied().collect();
-    members.sort();
-    if members.len() == 1 {
-        return members[0];
-    }
-    match choose(members.len()) {
-        Some(i) => members[i],
-        None => *set.iter().next().unwrap(),
-    }
 }
 
 pub(crate) struct Ordered<K, V>(Vec<(K, V)>);
